@@ -33,7 +33,7 @@ func genC16(m0 *M, rounds int) {
 		rng := rand.New(rand.NewSource(m0.rng.Int63()))
 		procs := []int{1, 2, 4, 16}[round%4]
 		runtime.GOMAXPROCS(procs)
-		ng := []int{2, 3, 8, 16, 32}[rng.Intn(5)]
+		ng := []int{2, 3, 4, 8, 16}[rng.Intn(5)]
 		// ---- shared, read-only arguments
 		sh := &shared{}
 		for i := 0; i < 2; i++ {
@@ -41,7 +41,11 @@ func genC16(m0 *M, rounds int) {
 			sh.elems = append(sh.elems, secp256k1.Base().Multiply(k))
 		}
 		sh.elems[1].Double() // a non-normalised representation
-		sh.scalars = append(sh.scalars, secp256k1.NewScalar().SetUInt64(uint64(2+rng.Intn(4000))), secp256k1.NewScalar().MinusOne())
+		small := uint64(2 + rng.Intn(4000))
+		if round%2 == 0 {
+			small = uint64(2 + rng.Intn(5)) // tiny shared scalar: results of Pow etc. stay short
+		}
+		sh.scalars = append(sh.scalars, secp256k1.NewScalar().SetUInt64(small), secp256k1.NewScalar().MinusOne())
 		sh.msg = make([]byte, 10+rng.Intn(90), 200)
 		rng.Read(sh.msg)
 		sh.dst = make([]byte, 1+rng.Intn(60), 128)
@@ -73,12 +77,55 @@ func genC16(m0 *M, rounds int) {
 				m.hist++
 				m.emit("Adopt")
 				<-start
-				for i := 0; i < 14; i++ {
+				for i := 0; i < 16; i++ {
 					if m.rng.Intn(3) == 0 {
 						runtime.Gosched()
 					}
 					r := m.rng.Intn(2)
-					switch m.rng.Intn(20) {
+					switch m.rng.Intn(30) {
+					case 20: // short results: small base, small shared exponent
+						m.SSetU64(0, uint64(2+m.rng.Intn(6)))
+						m.SPow(0, 1)
+					case 21:
+						m.SSetU64(0, uint64(m.rng.Intn(3)))
+						m.SMul(0, 1)
+						m.SInvert(0)
+					case 22:
+						m.EIdentity(r)
+						m.EEncodeUnc(r)
+						m.EEncode(r)
+						m.EHex(r)
+					case 23:
+						m.EHex(2)
+						m.EMarshal(3)
+						m.EXCoord(2)
+						m.SHex(1)
+						m.SMarshal(2)
+					case 24:
+						m.EDecodeForm(r, "hex", []byte(hexString(sh.enc)))
+						m.SDecodeForm(0, "hex", []byte(hexString(sh.senc)))
+					case 25:
+						m.ENegate(r)
+						m.EDouble(r)
+						m.EIsIdentity(r)
+					case 26:
+						m.SSet(0, 2)
+						m.SSquare(0)
+						m.SSub(0, 1)
+						m.SIsZero(0)
+					case 27:
+						m.EDecodeForm(r, "comp", sh.enc)
+						m.EDecodeForm(r, "unc", sh.encUnc)
+						m.EDecodeForm(r, "any", []byte{0})
+					case 28:
+						m.SSetU64(0, m.rng.Uint64())
+						m.SPow(0, 2) // s^(n-1) = 1
+						m.SIsOne(0)
+					case 29:
+						m.ESet(r, 2)
+						m.EMulNil(r)
+						m.SMulNil(0)
+						m.SPowNil(0)
 					case 0, 1:
 						m.EHashToGroup(r, sh.msg, sh.dst)
 					case 2:
@@ -153,7 +200,7 @@ func genC16(m0 *M, rounds int) {
 
 func init() {
 	gens["C16"] = func(m *M, pick func(q, t int) int, shards int) {
-		perFile(m, pick(8, 200)*300, shards)
-		genC16(m, pick(8, 200))
+		m.perFile = 1 // one trace file per round
+		genC16(m, pick(16, 300))
 	}
 }
